@@ -137,6 +137,7 @@ func anchorScenario(o anchorOpts) *Scenario {
 				return []model.Tx{{Msgs: []model.Msg{{Kind: model.AuthzGrant, From: "W1", To: "O", URL: model.WrkPur}, {Kind: model.AuthzGrant, From: "W1", To: "O", URL: model.BcnPur}}}}
 			}, Enabled: func(m *model.State, _ map[string]int) bool { return !m.Grants["W1|O|"+model.WrkPur] }},
 			purAct("exec(O,wpur(W1,#1,1))", model.WrkPur, "W1", 1, 1, "O"),
+			purAct("exec(O,bpur(W1,#1,1))", model.BcnPur, "W1", 1, 1, "O"),
 			purAct("exec(O,wpur(W1,#1,2^64-1))", model.WrkPur, "W1", 1, maxU64, "O"),
 			purAct("exec(O,wpur(W1,#1,2^64-2))", model.WrkPur, "W1", 1, maxU64-1, "O"),
 			purAct("exec(O,bpur(W1,#1,2^64-1))", model.BcnPur, "W1", 1, maxU64, "O"),
@@ -163,6 +164,8 @@ func anchorScenario(o anchorOpts) *Scenario {
 			regAct(model.WrkReg, "O", []string{"m", long(129), "0xg", "t"}, maxEnts),
 			regAct(model.WrkReg, "O", []string{"m", "n", long(67), "t"}, maxEnts),
 			regAct(model.WrkReg, "O", []string{"", "n", "0xg", "t"}, maxEnts),
+			regAct(model.WrkReg, "O", []string{"m-only", "", "", "t"}, maxEnts), // optional fields left empty
+			regAct(model.BcnReg, "O", []string{"b-only", ""}, maxEnts),
 			regAct(model.BcnReg, "O", []string{long(64), long(128)}, maxEnts),
 			regAct(model.BcnReg, "O", []string{long(65), "n"}, maxEnts),
 			regAct(model.BcnReg, "O", []string{"", "n"}, maxEnts),
@@ -188,6 +191,9 @@ func anchorScenario(o anchorOpts) *Scenario {
 				}
 			}
 		}
+	}
+	if o.purchases {
+		s.Prefix = []string{"grant(W1->O,wpur+bpur)"} // nested purchases are one step closer to the root
 	}
 	// drop duplicate action names (options overlap)
 	seen := map[string]bool{}
